@@ -1,11 +1,14 @@
-import FormulaicVerif.Model.Eval
-import FormulaicVerif.Gen.OperatorTable
+import FormulaicVerif.Model.Parser
+import FormulaicVerif.Model.Variables
 /-! The wildcard `.` (`insert_unused_terms` in `DefaultOperatorResolver.operators`,
 `formulaic/parser/parser.py`). The expansion itself is the parser model's `applyPlain` on the `.`
-operator (the function the C01 correspondence exercises); this file only names the operator and
-packages the call. The left-hand-side variables come from `Model.Variables.lhsUsed`. -/
+operator (the function the C01 correspondence exercises); this file names the operator, packages the
+call, and connects the whole parser model (`formulaOfString`: tokens → AST → terms, where EVERY
+occurrence of `.` reads the same evaluation context) to `Model.Variables`: the variables of the
+left-hand-side Python tokens are computed by `tokenRequired` from the CPython tree, and the available
+variables are the keys of the layer called `data` of the materializer's layered context. -/
 namespace FormulaicVerif.Model.Dot
-open FormulaicVerif.Model
+open FormulaicVerif.Model FormulaicVerif.Model.Variables
 
 /-- the `.` operator as `DefaultOperatorResolver.operators` declares it (checked against the
 generated operator tables in `Props/C17.lean`) -/
@@ -17,5 +20,56 @@ def dotOp : OpSpec :=
 `__formulaic_variables_available__`) and `used` = `__formulaic_variables_used_lhs__` -/
 def expand (available used : List String) : Except ParseErr (List Term) :=
   applyPlain dotOp { available := some available, usedLhs := used } []
+
+/-- a token of the parser model as `Token.required_variables` sees it: the CPython tree of a Python
+token is looked up by its (normalised) text -/
+def ptokOf (codes : List (String × Option PyCode)) (t : Tok) : PTok :=
+  { text := String.ofList t.text,
+    kind := match t.kind with
+      | some .name => .name
+      | some .python => .python ((codes.lookup (String.ofList t.text)).join)
+      | _ => .other }
+
+/-- the CPython-dependent parameters of the parser model when the variables of Python tokens are
+computed by `Model.Variables.tokenRequired` (`norm` = `sanitize_python_code` stays a parameter) -/
+def pyEnv (norm : List Char → Except PyErr (List Char)) (codes : List (String × Option PyCode))
+    (available : Option (List String)) : PyEnv :=
+  { norm := norm,
+    pyvars := fun cs => tokenRequired ⟨String.ofList cs, .python ((codes.lookup (String.ofList cs)).join)⟩,
+    available := available }
+
+/-- `Formula.from_spec(formula, context=…)` with the default parser; `available` is what the context
+offers to `.`: `__formulaic_variables_available__` when given, else the keys of the layer called `data`
+when the context is a layered mapping with such a layer (`Layers.available` for the materializer's
+context), else nothing — then `.` is a parsing error -/
+def formulaWithDots (norm : List Char → Except PyErr (List Char))
+    (codes : List (String × Option PyCode)) (available : Option (List String)) (cs : List CharInfo) :
+    Except ParseErr Val :=
+  formulaOfString {} (pyEnv norm codes available) cs
+
+/-- the factor of a parsed term as the materializer evaluates it -/
+def pfactorOf (codes : List (String × Option PyCode)) (f : Factor) : PFactor :=
+  { expr := f.expr,
+    kind := match f.eval with
+      | .lookup => .lookup
+      | .literal => .literal
+      | .python => .python ((codes.lookup f.expr).join) }
+
+/-- the factors of one part (`SimpleFormula`) in term order -/
+def partFactors (codes : List (String × Option PyCode)) (ts : List Term) : List PFactor :=
+  ts.flatMap (fun t => t.map (pfactorOf codes))
+
+/-- the parts of a structured formula, in `_map` order -/
+def parts : Val → List (List Term)
+  | .set ts => [ts]
+  | .tuple vs => partsList vs
+  | .struct fs => partsFields fs
+where
+  partsList : List Val → List (List Term)
+    | [] => []
+    | v :: vs => parts v ++ partsList vs
+  partsFields : List (String × Val) → List (List Term)
+    | [] => []
+    | (_, v) :: fs => parts v ++ partsFields fs
 
 end FormulaicVerif.Model.Dot
